@@ -225,6 +225,9 @@ class ContractDB:
         self.axioms = []      # (label, text)
         self.files = []
         self.safety = {}      # property -> list of function patterns under the safety sweep
+        self.nullable = set() # "Type.Field" pointer/interface fields that may be nil in a well-formed AST
+        self.wfexclude = {}   # interface short name -> set of implementer short names never produced by the parser
+        self.wfalso = {}      # struct short name -> list of extra well-formedness conditions over `self`
 
     def load_dir(self, root, module):
         for dirpath, dirs, files in os.walk(root):
@@ -267,6 +270,18 @@ class ContractDB:
                 sd = SpecDef(m.group(1), params, m.group(3))
                 self.specs[sd.name] = sd
                 last = sd
+            elif word == 'nullable':
+                self.nullable.update(rest.split())
+                last = None
+            elif word == 'wfalso':
+                nm, _, ex = rest.partition(':')
+                c = Clause('wfalso', nm.strip(), [], ex.strip(), path, ln)
+                self.wfalso.setdefault(nm.strip(), []).append(c)
+                last = c
+            elif word == 'wfexclude':
+                ws = rest.split()
+                self.wfexclude.setdefault(ws[0], set()).update(ws[1:])
+                last = None
             elif word == 'sweep':
                 # sweep C12 <function name pattern> ...
                 ws = rest.split()
@@ -321,7 +336,7 @@ class ContractDB:
                 else:
                     cur.lets.append(c)
                 last = c
-            elif word in ('inline', 'trusted', 'pure', 'nosafety', 'safety'):
+            elif word in ('inline', 'trusted', 'pure', 'nosafety', 'safety', 'functional'):
                 cur.flags.add(word)
                 if rest:
                     cur.flags.update(rest.split())
